@@ -6,12 +6,15 @@ Utilities to compare 2 GraphQL schema for incompatibilities.
 import itertools
 from typing import Any, Dict, Iterator, Optional, Tuple, Type, TypeVar, Union
 
+from ...lang import ast as _ast
 from .. import (
     SPECIFIED_DIRECTIVES,
+    Argument,
     Directive,
     EnumType,
     Field,
     GraphQLType,
+    InputField,
     InputObjectType,
     InterfaceType,
     ListType,
@@ -341,9 +344,7 @@ def _diff_directive_arguments(
                 or (not old_arg.has_default_value and new_arg.has_default_value)
                 or (
                     old_arg.has_default_value
-                    and not _is_same_value(
-                        old_arg.default_value, new_arg.default_value
-                    )
+                    and not _is_same_default(old_arg, new_arg)
                 )
             ):
                 yield DirectiveArgumentDefaultValueChange(
@@ -386,9 +387,7 @@ def _diff_field_arguments(
                 or (not old_arg.has_default_value and new_arg.has_default_value)
                 or (
                     old_arg.has_default_value
-                    and not _is_same_value(
-                        old_arg.default_value, new_arg.default_value
-                    )
+                    and not _is_same_default(old_arg, new_arg)
                 )
             ):
                 yield FieldArgumentDefaultValueChange(
@@ -398,6 +397,49 @@ def _diff_field_arguments(
     for name, new_arg in new_args.items():
         if name not in old_args:
             yield FieldArgumentAdded(parent, new_field, new_arg)
+
+
+def _is_same_default(
+    old: Union[Argument, InputField], new: Union[Argument, InputField]
+) -> bool:
+    # Defaults are compared as GraphQL values of their position: ``1`` and
+    # ``1.0`` are the same ``Float``, an enum member is identified by its name
+    # whatever its internal value.
+    old_literal = _default_literal(old)
+    new_literal = _default_literal(new)
+    if old_literal is None or new_literal is None:
+        return _is_same_value(old.default_value, new.default_value)
+    return old_literal == new_literal
+
+
+def _default_literal(arg: Union[Argument, InputField]) -> Optional[Any]:
+    from ...utilities import ast_node_from_value
+
+    try:
+        return _canonical_literal(
+            ast_node_from_value(
+                arg.default_value, arg.type, numeric_strings=False
+            )
+        )
+    except Exception:
+        return None
+
+
+def _canonical_literal(node: _ast.Value) -> Any:
+    # The fields of an object literal denote the same value in any order.
+    if isinstance(node, _ast.ListValue):
+        return ("list", tuple(_canonical_literal(v) for v in node.values))
+    if isinstance(node, _ast.ObjectValue):
+        return (
+            "object",
+            tuple(
+                sorted(
+                    (f.name.value, _canonical_literal(f.value))
+                    for f in node.fields
+                )
+            ),
+        )
+    return (node.__class__.__name__, getattr(node, "value", None))
 
 
 def _is_same_value(old: Any, new: Any) -> bool:
@@ -568,9 +610,7 @@ def _diff_input_types(old: Schema, new: Schema) -> Iterator[SchemaChange]:
                     )
                     or (
                         old_field.has_default_value
-                        and not _is_same_value(
-                            old_field.default_value, new_field.default_value
-                        )
+                        and not _is_same_default(old_field, new_field)
                     )
                 ):
                     yield InputFieldDefaultValueChange(
